@@ -7,6 +7,7 @@ import PgModel.C05Handles
 import PgModel.C05Dna
 import PgModel.C05Spec
 import PgModel.C05Geno
+import PgGen.C05Fn
 import PgGen.C05Sig
 open Pg Pg.C05
 
@@ -409,6 +410,11 @@ def handle (j : J) : J :=
       let (_, outs) := run c [] ops
       .obj [("outs", .arr (outs.map outToJ))]
     | _, _ => bad "store"
+  | some "fn" =>
+    let name : FnOrigin → String
+      | .moduleDef => "module-def" | .moduleLambda => "module-lambda" | .classBodyDef => "class-body-def"
+      | .classBodyLambda => "class-body-lambda" | .nestedDef => "nested-def" | .nestedLambda => "nested-lambda"
+    .obj (FnOrigin.all.map fun o => (name o, .bool (writtenByCode fnTests o)))
   | some "geno_env" =>
     let kindJ : Kind → J
       | .any => .str "any" | .bool => .str "bool" | .int => .str "int" | .str => .str "str"
